@@ -429,6 +429,17 @@ func runC07(c *fw.Ctx) {
 			c.Sample(3, map[string]any{"archs": archs, "valid": true, "entry_points": "NewHeader, TakeFrom, ParseArchiveInfoList, flag, Open, Create+Sync+Open"})
 		}
 	})
+	// the retention-string entry point at the 32-bit limits of number x unit (reference: exact big-integer meaning)
+	if c.Shard == 0 {
+		for _, d := range OverflowNumerals() {
+			for _, str := range []string{"1s:" + d, d + ":" + d, "1s:60s,1m:" + d, d + ":120s"} {
+				c.Count("evaluations", 1)
+				if sig, desc := c19ListStr(str); sig != "" {
+					c.Violate("C07/ParseArchiveInfoList/accepted-invalid/"+sig[len("C19/list/"):], desc, len(str), c07Case{}, "")
+				}
+			}
+		}
+	}
 	// the x-files-factor and agg-method flag setters
 	if c.Shard == 0 {
 		for _, s := range []string{"NaN", "nan", "-0", "0", "1", "1.0000001", "-1e-45", "Inf", "-Inf", "0.5", "1e-50", "2", "x", ""} {
